@@ -64,7 +64,11 @@ Inductive instr :=
 | IIf (arity : nat) (th el : list instr)
 | IBr (l : nat) | IBrIf (l : nat) | IBrTable (ls : list nat) (default : nat)
 | IReturn
-| IUnreachable.
+| IUnreachable
+(* an instruction the machine does not interpret (the f64 arithmetic of the
+   percentage quantifiers): only its encoding is known; executing it is stuck,
+   and no condition of the part EmitProofs covers contains one *)
+| IRaw (opcode : Z) (imm : list Z).
 
 Record state := mkState {
   s_stack : list val;
